@@ -20,7 +20,13 @@ func Equal(a Value, b Value) bool {
 	if a.Format().IsList() {
 		return reflect.DeepEqual(a.Value(), b.Value())
 	}
-	return a.(Comparable).Compare(b.(Comparable)) == 0
+	ca, aOk := a.(Comparable)
+	cb, bOk := b.(Comparable)
+	if !aOk || !bOk {
+		// bits, empty, any
+		return reflect.DeepEqual(a.Value(), b.Value())
+	}
+	return ca.Compare(cb) == 0
 }
 
 func EqualVals(a []Value, b []Value) bool {
